@@ -107,6 +107,11 @@ WFSingles ==
         { DirModes[((k + f + (2 * c) + e + (3 * m) + v) % 4) + 1] }) :
       k \in 1..2, f \in 1..2, c \in 1..4, e \in 1..3, m \in 1..3, v \in 1..2 }
 
+Idx(seq, x) == CHOOSE i \in 1..Len(seq) : seq[i] = x
+QuickPick(it) ==
+  (Idx(Kinds, it.kind) + Idx(WFForms, it.form) + Idx(WFCiph, it.ciph) + Idx(WFExp, it.exp)
+   + Idx(CmdsL, it.cmds) + Idx(Vers, it.ver)) % 3 = 0
+
 \* the standard pair (parent + family), both orders, forms and command lists varied
 Pairs ==
   { Scn(AddrShapes[((o + f + g + m) % 5) + 1], WsStyles[((o + f + m) % 3) + 1],
@@ -145,15 +150,21 @@ Dups ==
 
 \* three items with an unknown prefix in the middle; every shape of CONDOR_INHERIT
 Triples ==
-  { Scn(a, w, << Base("parent"), With(Base("family"), "kind", "other"), With(Base("family"), "cmds", c) >>,
+  { Scn(a, w, << Base("parent"), With(With(Base("family"), "kind", "other"), "id", "idX"), With(Base("family"), "cmds", c) >>,
         {"childByCmdRaw", "childByCmdNorm"}) :
       a \in {"plain", "sharedport", "alias", "ipv6sp", "ipv6plain", "pidonly", "empty"},
       w \in {"lead", "messy"}, c \in {"none", "two"} }
   \cup { Scn(a, "lead", << >>, {"childById"}) : a \in {"sharedport", "empty"} }
 
+\* quick tier: a third of the well-formed singles (the coordinates' sum is a
+\* multiple of 3: every PAIR of values of two dimensions still occurs) and the
+\* pairs with one direction / mode each; everything else in full
+One(S) == {CHOOSE x \in S : TRUE}
 Scenarios ==
   IF Tier = "all" THEN WFSingles \cup Pairs \cup NearMisses \cup Dups \cup Triples
-  ELSE WFSingles \cup Pairs \cup NearMisses \cup Dups \cup Triples
+  ELSE { s \in WFSingles : QuickPick(s.items[1]) }
+       \cup { [s EXCEPT !.dms = One(s.dms)] : s \in Pairs }
+       \cup NearMisses \cup Dups \cup Triples
 
 -----------------------------------------------------------------------------
 (* intent -> text                                                            *)
@@ -343,6 +354,17 @@ NormAddr(a) ==
 
 MapAddrs(raw) == {raw} \cup (IF NormAddr(raw) # << >> THEN {NormAddr(raw)} ELSE {})
 
+\* does the private-inherit parser yield a session for this item
+Yielded(it) == it.kind \in {"parent", "family"} /\ it.form \notin {"noinfo", "nohash", "emptyid"}
+
+\* "wf": must become exactly one entry; "either": the documentation does not say
+\* (info without brackets is read by ImportSessionInfoAttributes and refused by
+\* ImportSecSessionInfo; a SessionExpires that is not a number); "bad": no entry
+Class(it) ==
+  IF ~Yielded(it) \/ it.form \in {"emptykey", "emptykeyB"} \/ it.ciph \in {"nonaes", "blowfish"} THEN "bad"
+  ELSE IF it.form = "unbracketed" \/ it.exp = "garbage" THEN "either"
+  ELSE "wf"
+
 -----------------------------------------------------------------------------
 VARIABLES
   sc, rel, dm,     \* the scenario, whether the parent holds the secret in the text, direction / mode
@@ -366,6 +388,13 @@ ParentEntry(it) ==
    method |-> "FAMILY", authed |-> TRUE, expiry |-> "never", lease |-> 0, inherited |-> TRUE, cm |-> "AESGCM",
    copied |-> [enc |-> <<"YES">>, integ |-> <<"YES">>, cmds |-> << >>, ver |-> << >>, expires |-> << >>]]
 
+\* one entry per id: when several items name an id, the parent holds the session
+\* of the last one that can be a session at all (else of the last one)
+ParentItem(items, i) ==
+  LET cand == {j \in 1..Len(items) : IdText(items[j]) = IdText(items[i]) /\ KeyText(items[j]) # << >>}
+      good == {j \in cand : Class(items[j]) # "bad"}
+  IN IF good # {} THEN MaxOf(good) ELSE MaxOf(cand)
+
 Init ==
   /\ sc \in Scenarios
   /\ rel \in SecretRels
@@ -376,7 +405,8 @@ Init ==
   /\ pinh = [ppid |-> << >>, addr |-> << >>, rest |-> 0] /\ parsed = << >>
   /\ k = 0
   /\ cache = {} /\ cmap = {}
-  /\ pcache = { ParentEntry(sc.items[i]) : i \in {j \in 1..Len(sc.items) : IdText(sc.items[j]) # << >> /\ KeyText(sc.items[j]) # << >>} }
+  /\ pcache = { ParentEntry(sc.items[ParentItem(sc.items, i)]) :
+                  i \in {j \in 1..Len(sc.items) : IdText(sc.items[j]) # << >> /\ KeyText(sc.items[j]) # << >>} }
   /\ results = << >>
 
 \* ImportInheritedSessions: both variables are read and parsed once; the private
@@ -440,17 +470,6 @@ Spec == Init /\ [][Next]_vars
 
 -----------------------------------------------------------------------------
 (* what the intent entails                                                   *)
-
-\* does the private-inherit parser yield a session for this item
-Yielded(it) == it.kind \in {"parent", "family"} /\ it.form \notin {"noinfo", "nohash", "emptyid"}
-
-\* "wf": must become exactly one entry; "either": the documentation does not say
-\* (info without brackets is read by ImportSessionInfoAttributes and refused by
-\* ImportSecSessionInfo; a SessionExpires that is not a number); "bad": no entry
-Class(it) ==
-  IF ~Yielded(it) \/ it.form \in {"emptykey", "emptykeyB"} \/ it.ciph \in {"nonaes", "blowfish"} THEN "bad"
-  ELSE IF it.form = "unbracketed" \/ it.exp = "garbage" THEN "either"
-  ELSE "wf"
 
 IntentSession(it) == [kind |-> it.kind, sid |-> IdText(it), info |-> InfoText(it), key |-> KeyText(it)]
 
